@@ -102,7 +102,7 @@ Theorem nothing_unpersisted np s0 ts0 sched : good_init s0 ts0 ->
 Proof.
   intros G. pose proof (reach_inv np _ _ sched G) as I.
   destruct (run np sched (s0, ts0)) as [s ts].
-  destruct I as (r & h & e & F & C & TL & W & _ & _ & (S1 & S2 & S3 & S4) & _).
+  destruct I as (r & h & e & F & C & TL & W & _ & _ & (S1 & S2 & S3 & S4 & S5) & _).
   intros D Hc. destruct (done_measures _ D) as (_ & _ & _ & Rz & Lz & P1 & P2 & P3 & _).
   rewrite (fields_extra _ _ _ _ F), (fields_have _ _ _ _ F).
   rewrite Rz, Lz, P1, P2, P3 in *.
@@ -139,4 +139,25 @@ Proof.
   pose proof (extra_after_le _ n He Hn).
   rewrite (fields_extra _ _ _ _ F'), (fields_readers _ _ _ _ F'), (fields_have _ _ _ _ F').
   destruct F' as (_ & _ & He'). repeat split; try lia.
+Qed.
+
+(* A lock holder whose own lookup extended the file (newCounter1 stored a new
+   mapping and its cleanup invalidated every counter, this one included) holds
+   the lock with havePtr clear from the end of its invalidate until it sets
+   havePtr again: the pointer lookup returns is assigned but never used - the
+   next CAS on the saved word fails and the counter is looked up again. *)
+Theorem grower_must_look_up_again np s0 ts0 sched : good_init s0 ts0 ->
+  let '(s, ts) := run np sched (s0, ts0) in
+  forall i t, nth_error ts i = Some t -> t_pc t = GRfLoad \/ t_pc t = GClose ->
+  w_have (s_word s) = false /\ w_readers (s_word s) = LOCKED.
+Proof.
+  intros G. pose proof (reach_inv np _ _ sched G) as I.
+  destruct (run np sched (s0, ts0)) as [s ts].
+  destruct I as (r & h & e & F & C & TL & W & _ & _ & (_ & _ & _ & _ & S5) & _).
+  intros i t Hn Hpc.
+  pose proof (sum_others_bound _ _ _ Hn) as (B1 & B2 & B3 & B4 & B5 & B6 & B7 & B8 & B9).
+  assert (gp t = 1 /\ lk t = 1) as [G1 L1] by (unfold gp, lk; destruct Hpc as [-> | ->]; split; reflexivity).
+  rewrite (fields_have _ _ _ _ F), (fields_readers _ _ _ _ F). split.
+  - apply S5. lia.
+  - unfold cnt_ok in C. pose proof (sum_rd_lk_le ts). rewrite LOCKED_v in *. lia.
 Qed.
